@@ -314,6 +314,99 @@ func runC13(p *Prog, r *Result) {
 		r.Check(shell[rn], "R13b", fmt.Sprintf("syntax.Quote#separator rune %q triggers quoting", rn), qSw[0].Pos(), "in the shellChars case list",
 			fmt.Sprintf("%q separates words / starts a comment / escapes, but does not trigger quoting", rn))
 	}
+	// ---- R13d: characters that start an expansion of an unquoted word trigger quoting unconditionally
+	{
+		type trig struct {
+			r      rune
+			why    string
+			pos    token.Pos
+			source string
+		}
+		var trigs []trig
+		// pathname expansion: the bytes pattern.HasMeta reports (a word containing them is globbed)
+		if pp := p.Pkg("pattern"); pp != nil {
+			if hm := p.FuncDecl("pattern", "HasMeta"); hm != nil {
+				pinfo := pp.TypesInfo
+				if hsw := valueSwitches(hm.Body); len(hsw) == 1 {
+					flagVars := map[types.Object]bool{}
+					for _, st0 := range hsw[0].Body.List {
+						for _, st := range st0.(*ast.CaseClause).Body {
+							if ifs, ok := st.(*ast.IfStmt); ok {
+								if id, ok := ast.Unparen(ifs.Cond).(*ast.Ident); ok && bodyReturnsTrue(pinfo, ifs.Body.List) {
+									flagVars[pinfo.Uses[id]] = true
+								}
+							}
+						}
+					}
+					for rn := range runeCases(pinfo, hsw[0], func(cc *ast.CaseClause) bool {
+						if bodyReturnsTrue(pinfo, cc.Body) {
+							return true
+						}
+						for _, st := range cc.Body {
+							if as, ok := st.(*ast.AssignStmt); ok && len(as.Lhs) == 1 {
+								if id, ok := ast.Unparen(as.Lhs[0]).(*ast.Ident); ok && flagVars[pinfo.Uses[id]] {
+									return true
+								}
+							}
+						}
+						return false
+					}) {
+						trigs = append(trigs, trig{rn, "pattern.HasMeta treats it as a glob metacharacter", hm.Pos(), "pattern.HasMeta"})
+					}
+				}
+			}
+		}
+		// brace expansion: the string SplitBraces looks for before doing any work
+		if sb := p.FuncDecl("syntax", "SplitBraces"); sb != nil {
+			ast.Inspect(sb.Body, func(n ast.Node) bool {
+				c, ok := n.(*ast.CallExpr)
+				if !ok || qualName(calleeOf(info, c)) != "strings.Contains" || len(c.Args) != 2 {
+					return true
+				}
+				if tv := info.Types[c.Args[1]]; tv.Value != nil && tv.Value.Kind() == constant.String {
+					for _, rn := range constant.StringVal(tv.Value) {
+						trigs = append(trigs, trig{rn, "SplitBraces starts brace expansion on it", c.Pos(), "syntax.SplitBraces"})
+					}
+				}
+				return true
+			})
+		}
+		// tilde expansion: the prefix expandUser cuts
+		if ep := p.Pkg("expand"); ep != nil {
+			if eu := p.FuncDecl("expand", "Config.expandUser"); eu != nil {
+				einfo := ep.TypesInfo
+				ast.Inspect(eu.Body, func(n ast.Node) bool {
+					c, ok := n.(*ast.CallExpr)
+					if !ok || len(c.Args) != 2 {
+						return true
+					}
+					if q := qualName(calleeOf(einfo, c)); q != "strings.CutPrefix" && q != "strings.HasPrefix" {
+						return true
+					}
+					if tv := einfo.Types[c.Args[1]]; tv.Value != nil && tv.Value.Kind() == constant.String {
+						for _, rn := range constant.StringVal(tv.Value) {
+							trigs = append(trigs, trig{rn, "expandUser starts tilde expansion on it", c.Pos(), "expand.(Config).expandUser"})
+						}
+					}
+					return true
+				})
+			}
+		}
+		r.Rule("R13d", "runes on which an unquoted word is expanded (glob metacharacters of pattern.HasMeta, the brace SplitBraces looks for, the tilde expandUser cuts) set shellChars unconditionally", 4)
+		seenT := map[rune]bool{}
+		for _, t := range trigs {
+			if seenT[t.r] {
+				continue
+			}
+			seenT[t.r] = true
+			r.Check(shell[t.r], "R13d", fmt.Sprintf("syntax.Quote#expansion trigger %q triggers quoting", t.r), t.pos, "in the unconditional shellChars case list ("+t.why+")",
+				fmt.Sprintf("%s (%s), but Quote does not always quote strings containing %q: the result can expand to something other than the input", t.source, t.why, t.r))
+		}
+		if len(trigs) == 0 {
+			r.Undecided("R13d", "syntax.Quote#expansion triggers", fd.Pos(), "none of the anchors pattern.HasMeta / syntax.SplitBraces / expandUser yielded a trigger rune")
+		}
+	}
+
 	// the unquoted return: `return s, nil` with s the parameter
 	var sParam types.Object
 	if len(fd.Type.Params.List) > 0 && len(fd.Type.Params.List[0].Names) > 0 {
@@ -413,6 +506,8 @@ func runC13(p *Prog, r *Result) {
 }
 
 var c13Controls = []Control{
+	{Name: "brace-quoted-only-before-comma", Rule: "R13d", WantKey: "expansion trigger '{'", File: "syntax/quote.go",
+		Mutate: ctlReplaceAnywhere("\t\t\t// Might result in brace expansion.\n\t\t\t'{',\n", "")},
 	{Name: "posix-refusal-for-all-variants", Rule: "R13a", WantKey: "refusal quoteErrPOSIX", File: "syntax/quote.go",
 		Mutate: ctlReplace("Quote", "lang.in(LangPOSIX)", "lang.in(LangPOSIX | LangMirBSDKorn)", 0)},
 	{Name: "fifth-refusal", Rule: "R13a", WantKey: "refusals are exactly four", File: "syntax/quote.go",
